@@ -44,6 +44,15 @@ Theorem read_grouping_absent : forall o c s,
   read_grouping o c s = (None, s).
 Proof. intros o c [|t r] H; [reflexivity|]. cbn [read_grouping]. rewrite H. reflexivity. Qed.
 
+(* in particular a control sequence -- also the control symbol named like the opening delimiter: \[ \( \< -- never opens
+   (nor closes) a grouping: the test has the guard t.catcode != CC_ESCAPE on both delimiters *)
+Theorem read_grouping_absent_escape : forall o c k e r, read_grouping o c (Cs k e :: r) = (None, Cs k e :: r).
+Proof. intros. apply read_grouping_absent. reflexivity. Qed.
+
+Theorem grouping_escape_transparent : forall o c k e n l s,
+  grouping_loop o c n (Cs k e :: l ++ s) = (Cs k e :: fst (grouping_loop o c n (l ++ s)), snd (grouping_loop o c n (l ++ s))).
+Proof. intros. cbn [grouping_loop tok_is_delim]. destruct (grouping_loop o c n (l ++ s)); reflexivity. Qed.
+
 Lemma group_loop_scan : forall l n m s,
   scan b_open b_close n l = Some m ->
   group_loop n (l ++ s) = (l ++ fst (group_loop m s), snd (group_loop m s)).
